@@ -54,6 +54,7 @@ def gen_history(rng, B, malformed=False):
             sign = rng.choice([b"", b"", b"-", b"+"])
             ws = b"".join(rng.choice([b" ", b"\t", b"\n", b"\r\n", b"\r"]) for _ in range(rng.choice([0, 1, 1, 2])))
             digs = bytes(rng.choice(b"0123456789") for _ in range(nd))
+            if rng.random() < 0.1: digs = b"0" * rng.choice([1, 5, 17, 18, 19, 30]) + digs        # leading zeros: the value decides, not the digit count
             inp += ws + sign + digs
             ops.append("i" if ws or rng.random() < 0.5 else "I"); extracted = True
         elif k < 0.40:    # token
